@@ -1,1 +1,1 @@
-
+import Driver.Main
